@@ -105,7 +105,7 @@ func (nds *NumpyDataset) ToColumnSeries(options ...int) (cs *ColumnSeries, err e
 	}
 
 	cs = NewColumnSeries()
-	if len(nds.ColumnData[0]) == 0 {
+	if len(nds.ColumnData) == 0 {
 		return cs, nil
 	}
 	/*
@@ -158,14 +158,10 @@ func (nmds *NumpyMultiDataset) ToColumnSeriesMap() (csm ColumnSeriesMap, err err
 
 	for tbkStr, idx := range nmds.StartIndex {
 		length := nmds.Lengths[tbkStr]
-		var cs *ColumnSeries
-		if length > 0 {
-			cs, err = nmds.ToColumnSeries(idx, length)
-			if err != nil {
-				return nil, err
-			}
-		} else {
-			cs = NewColumnSeries()
+		// a bucket without rows keeps its (empty) typed columns: it must not vanish from the map
+		cs, err := nmds.ToColumnSeries(idx, length)
+		if err != nil {
+			return nil, err
 		}
 		tbk := NewTimeBucketKeyFromString(tbkStr)
 		csm.AddColumnSeries(*tbk, cs)
